@@ -906,7 +906,7 @@ pub fn run_c09(run: &mut Run) -> Stats {
     // short counts, which the BodyWriter must pass on faithfully
     let big: Vec<usize> = vec![1, 40_000, 200_000];
     let depth = tier.pick(3, 4);
-    run.rule = format!("every history over {{write(n), flush, poll, poll-until-pending, drop-writer}} of depth {depth} (+ epilogue) with Accept-Encoding: gzip, levels 1..9 x chunk sizes x payload classes (incompressible / 'a'-run / mixed; n in {{0, 1, 1/3, all}} of the class size), plus large incompressible write / write_all calls of 40 000 and 200 000 bytes (the encoder then reports short writes) at depth 3; oracle = independent RFC 1952 parser + own CRC-32 + miniz_oxide streaming inflater fed only the frames delivered so far: at every Pending after a successful flush everything written before it decodes; after writer drop exactly one member, CRC and ISIZE match the model's bytes, nothing trails; frames non-empty. non-trivial = distinct (config, history)");
+    run.rule = format!("every history over {{write(n), flush, poll, poll-until-pending, drop-writer}} of depth {depth} (+ epilogue) with Accept-Encoding: gzip, levels 1..9 x chunk sizes x payload classes (incompressible / 'a'-run / mixed; n in {{0, 1, 1/3, all}} of the class size), plus large incompressible write / write_all calls of 40 000 and 200 000 bytes (the encoder then reports short writes) at depth 3; oracle = independent RFC 1952 parser + own CRC-32 + miniz_oxide streaming inflater fed only the frames delivered so far: at every Pending after a successful flush everything written before it decodes (also probed by a 'ramp': T incompressible bytes in 500-byte writes then flush, for every T up to 140 000 (thorough 280 000) and every level); after writer drop exactly one member, CRC and ISIZE match the model's bytes, nothing trails; frames non-empty. non-trivial = distinct (config, history)");
     run.bounds = json!({"levels": levels, "chunk_sizes": chunks, "depth": depth, "payload_classes": 3});
     let mut cfgs = Vec::new();
     for &c in &chunks {
@@ -949,6 +949,34 @@ pub fn run_c09(run: &mut Run) -> Stats {
             }
         }
     });
+    // "Ramp" family: for every level, T bytes of incompressible data written in 500-byte pieces,
+    // then flush and drain, for every T up to 140 000 in steps of 500 -- i.e. a flush at every
+    // fill level of the encoder's internal buffers (the flate2 sync-flush loss only shows in a
+    // narrow window of T that depends on the level).
+    let step = 500usize;
+    let tmax = tier.pick(140_000usize, 280_000);
+    let ramp_levels: Vec<u32> = (1..=9).collect();
+    let ramp: Vec<(u32, usize)> = ramp_levels.iter().flat_map(|l| (1..=tmax / step).map(move |k| (*l, k * step))).collect();
+    run.extra.insert("ramp_histories".into(), json!(ramp.len()));
+    let mut total = total;
+    total.merge(par_for(ramp.len() as u64, threads(), |i, st| {
+        let (level, t) = ramp[i as usize];
+        let cfg = Config { chunk: 4096, level, accept: Some("gzip".into()), payload: Payload::Rand };
+        let mut ops: Vec<Op> = vec![Op::WA(step); t / step];
+        ops.push(Op::F);
+        ops.push(Op::PP);
+        let o = execute(&cfg, &ops, 1);
+        st.evaluations += 1;
+        for (k, s) in o.states.iter().enumerate() {
+            st.states.insert(*s);
+            if k > 0 {
+                st.transition(o.states[k - 1], o.labels[k - 1], *s);
+            }
+        }
+        st.outcome(o.class.clone());
+        st.nontrivial(&(level, t, "ramp"));
+        report(&prop, &cfg, &ops, 1, &o, st, (1 << 50) + i);
+    }));
     if dump {
         // Cross-check of the decoder (not the deciding step): distinct complete bodies are
         // written out for `python3 -c 'import zlib'` (C zlib) to re-decode; see ./check.
